@@ -173,13 +173,34 @@ static int run_one(const std::string &cs_)
     e.fe = r;
     u64 canon = Goldilocks::toU64(e);
     rep().stat("evaluations");
-    if (canon != ex || r % PR != ex)
+    if (canon != ex || r % PR != ex || r > LANEMASK)
         rep().viol(fmt("C01.wrong.%s.w%u", opname[op], W), casestr(op, form, a, b),
                    fmt("got %s (toU64 %s) expected %s", hex(r).c_str(), hex(canon).c_str(), hex(ex).c_str()));
     rep().flush();
     return 0;
 }
 
+#ifdef C01_AS_LIB
+// library form: the same op table behind a namespace, for the conformance/lifting harness (c01_conf.cpp)
+namespace KNS
+{
+u64 run_op(int op, int form, u64 a, u64 b)
+{
+#ifdef SIMW_SIG
+    simw_asm::sig_reset();
+#endif
+    return ::run(op, form, a, b);
+}
+u64 last_sig()
+{
+#ifdef SIMW_SIG
+    return simw_asm::asig;
+#else
+    return 0;
+#endif
+}
+} // namespace KNS
+#else
 int main(int argc, char **argv)
 {
     Args args = parse_args(argc, argv);
@@ -317,3 +338,4 @@ int main(int argc, char **argv)
     rep().flush();
     return 0;
 }
+#endif
